@@ -477,6 +477,31 @@ def oracle_cfg(h, out):
     return bad
 
 
+def across_incident_pairs(h, out):
+    """Number of pairs of consecutive open notifications to one module about one group that are NOT more than send-interval
+    apart and belong to different incidents / quiet periods: what "at most once per send interval" would forbid if it were
+    read across incidents (NotifierProofs.interval_across_incidents_refuted; the clause is claimed per incident)."""
+    if h.get("kind") == "cfg" or out.startswith("STUCK"):
+        return 0
+    po = parse_output(out)
+    info = analyse(h)
+    if po is None or len(po[0]) != len(info):
+        return 0
+    last = {}
+    n = 0
+    for st, calls in zip(info, po[0]):
+        if st["kind"] != "r" or st["dropped"]:
+            continue
+        for (m, c, g, status, eid, start, good) in calls:
+            if good:
+                continue
+            key = (m, st["key"])
+            if key in last and last[key][1] != st["seg"] and st["clock"] - last[key][0] <= iv_of(h["mods"][m - 1]) * SEC:
+                n += 1
+            last[key] = (st["clock"], st["seg"])
+    return n
+
+
 def oracle_c10(h, out):
     if h.get("kind") == "cfg":
         return oracle_cfg(h, out)
@@ -1137,7 +1162,7 @@ def count_refreshes(chk, h):
 
 
 def check_body(chk, failed, pid, oracle, focus_weights, n_quick, n_thorough, corr_name, n_stall_quick=36, n_stall_thorough=400,
-               n_block_quick=240, n_block_thorough=4000):
+               n_block_quick=240, n_block_thorough=4000, n_overlap_quick=300, n_overlap_thorough=5000):
     import common as C
     n = n_thorough if chk.thorough else n_quick
     hs, tags = [], []
@@ -1178,6 +1203,16 @@ def check_body(chk, failed, pid, oracle, focus_weights, n_quick, n_thorough, cor
         if has_stall(h):
             hs_s.append(h)
             tags_s.append(tg)
+    # two responses of ONE group in flight (slow first module, the next result of the group delivered meanwhile)
+    for h in overlap_witnesses():
+        hs_s.append(h)
+        tags_s.append(["overlap-witness", "-", "-", "-"])
+    for i in range(n_overlap_thorough if chk.thorough else n_overlap_quick):
+        h, tg = gen_hist(chk.rng, i, chk.rng.choice(focus_weights))
+        h = add_overlap(chk.rng, h)
+        if has_stall(h):
+            hs_s.append(h)
+            tags_s.append(tg)
     if hs_s:
         cases_s = [fmt(h) for h in hs_s]
         impl_s = run_impl_parallel(chk, hs_s, "stall")
@@ -1187,7 +1222,8 @@ def check_body(chk, failed, pid, oracle, focus_weights, n_quick, n_thorough, cor
         chk.evaluations += len(cases_s)
         chk.traces_validated += len(cases_s)
         chk.count("histories-with-a-timed-out-storage-request", sum(1 for h in hs_s if any((not is_resp(st)) and st[1] == "s" for st in h["steps"])))
-        chk.count("histories-with-a-slow-module-and-a-concurrent-refresh", sum(1 for h in hs_s if any(is_resp(st) and len(st) > 3 for st in h["steps"])))
+        chk.count("histories-with-two-responses-of-one-group-in-flight", sum(1 for h in hs_s if any(is_overlap(st) for st in h["steps"])))
+        chk.count("histories-with-a-slow-module-and-a-concurrent-refresh", sum(1 for h in hs_s if any(is_resp(st) and len(st) > 4 for st in h["steps"])))
         hs, tags, cases, impl, model = hs + hs_s, tags + tags_s, cases + cases_s, impl + impl_s, model + model_s
 
     for h, c, tg in zip(hs, cases, tags):
@@ -1213,6 +1249,8 @@ def check_body(chk, failed, pid, oracle, focus_weights, n_quick, n_thorough, cor
             chk.count("opt:thr=%s,iv=%s,once=%d,close=%d" % (m["thr"], m["iv"], m["once"], m["close"]))
             for nm in h["names"]:
                 chk.count("lists:%s" % ("accept" if lists_accept(m, nm) else "reject"))
+    nacross = sum(1 for h, a in zip(hs, impl) if across_incident_pairs(h, a) > 0)
+    chk.count("histories-with-open-notifications-closer-than-send-interval-across-incidents", nacross)
     ncalls = nclose = 0
     for a in impl:
         po = parse_output(a)
